@@ -42,6 +42,52 @@ CHECKS.update({
     ),
 })
 
+TREE = "stateless depth-first exploration of the parser's execution tree (driver owns the character iterator; every input over layered alphabets up to a depth bound executed on the real parser) against an independent pushdown-automaton reference"
+CHECKS.update({
+    "C01": (
+        "chk-parse", MC, TREE + "; complete byte-sequence families",
+        "Every input over eight alphabets (structure, mixed, number automaton x 4 follow contexts, literals, string escapes, surrogate macro-symbols, an 19-token alphabet, a 24-byte alphabet) up to a depth that is iterated upward inside the time budget, plus one (quick) / two (thorough) deviations from a 152-character wide alphabet, plus every byte sequence of length <= 3 (and the 4-byte families) inside strings and at top level, plus every truncation / byte substitution of the 311 corpus documents, is executed through every entry point and the verdict compared with R-pda + surrogate well-formedness + core::str::from_utf8. Subtrees below non-viable prefixes are pruned (sound for a deterministic single-pass parser) with a post-mortem horizon of 2 for the entry points whose consumption cannot be observed.",
+        "Bounded by depth and deviation count; transfer to longer texts rests on the finiteness of the parser's control state (lexical state x top of stack x lookahead), all of whose (state, input class) pairs occur in the trees. Reference models are cross-checked against each other and serde_json on every node.",
+        "4/C01",
+    ),
+    "C02": (
+        "chk-parse", MC, TREE + " on accepted leaves; complete enumeration of the escape / surrogate-pair / scalar domains",
+        "Every accepted text of the trees plus the complete families (all 65 536 \\uXXXX in both hex cases, all 1 048 576 surrogate pairs, all 1 112 064 raw scalars, all backslash+ASCII pairs, the inline->heap spill lengths 0..40) is parsed through parse_str, parse_slice and the observed iterator; the value observed through the public accessors must equal R-dec's abstract value and every key lookup on every object must equal a linear scan.",
+        "Large/nested documents beyond the tree depth are outside; R-dec is an independent recursive-descent decoder cross-checked with R-pda and serde_json.",
+        "4/C02",
+    ),
+    "C03": (
+        "chk-parse", MC, TREE + " under four option records with a totality guard; exhaustive cover of the container-transition graph pumped to depth 5e4..2e6 in fixed-stack threads of child processes",
+        "Totality: every node of the trees, every byte string of length <= 3 over all 256 values, the <=4-byte families and every corpus edit, under all four option records, runs inside catch_unwind with a 10 s watchdog and an input iterator that aborts after 1000 polls past the end. Stack: all 84 words of length <= 3 over the four container-entry forms are pumped to depth N (5e4 quick; 2e5 and 2e6 thorough), closed / unclosed / wrongly closed, parsed through parse_slice_with and parse_str_with and traversed in a thread with a 64 KiB (256 KiB) stack inside child processes; a killed child is a violation.",
+        "Arbitrary bytes only up to length 3 (+ structured families); nesting cycles longer than 3 are outside. Dropping a deep value is recursive (outside the statement) so the pump leaks it.",
+        "4/C03",
+    ),
+    "C05": (
+        "chk-parse", MC, TREE + " on accepted leaves against R-dec's expected code map",
+        "For every accepted text of the structure, mixed, string and token trees (and the whitespace and spill families) the returned code map must equal R-dec's pre-order list of (start, end, volume) exactly, through the string, byte-slice and iterator entry points; plus root volume = length, volumes >= 1, one entry per traversal fragment.",
+        "Documents beyond the depth bounds are outside; R-dec's map construction follows DESIGN A.2.",
+        "4/C05",
+    ),
+    "C07": (
+        "chk-parse", MC, TREE + " on every rejected node, compared with the viable-prefix recogniser",
+        "Every rejected node (including post-mortem nodes and all byte families / corpus edits): Unexpected must carry exactly the longest-viable-prefix length and the character there (none iff at the end); InvalidUtf8 the offset of the first ill-formed sequence unless a syntax error lies strictly before it; surrogate errors the offending code units and a span inside the escape sequence(s); every offset a character boundary inside the input; checked for every entry point.",
+        "Weaker reading for surrogate spans (may extend to the detection point, DESIGN A.7.1); which of several coexisting faults is reported first is only constrained as far as the statement fixes it.",
+        "4/C07",
+    ),
+    "C11": (
+        "chk-parse", MC, TREE + " on the token trees: every accepted document's navigation API compared with a traversal table",
+        "For every accepted document of two token alphabets (all token sequences up to the bound): get_fragment for every index and three past the end, iter_mapped on every array and object, the eight mapped key lookups for every key and an absent key, volume and count are compared with a table built from traverse(), and the span at each returned offset is cut from the source and re-parsed; conversions: every nested-array / map shape up to a bound with a wrong-kind value planted at every position must fail at that fragment's index.",
+        "Relies on C05 for span exactness. Conversions are covered for Vec<Vec<String>>, a harness leaf type, BTreeMap<String, Vec<_>>, Option/Box/scalars.",
+        "4/C11",
+    ),
+    "C12": (
+        "chk-parse", MC, TREE + " under all four option records, surrogate macro-symbol tree",
+        "Every sequence of up to 4-6 string elements over {two high, two low surrogate escapes, an ordinary escape, a two-character escape, two raw characters, the quote} in value, key and array-item position, the C01 trees, all 65 536 escapes and all 2^20 pairs, each under the four option records: acceptance must equal (grammar-valid and every fault tolerated by that record), each fault decodes to exactly one U+FFFD, pairs combine, strict-valid documents give identical value and code map under every record, and rejected texts carry the error of the first untolerated fault.",
+        "Reference semantics of the lenient options: DESIGN A.3.",
+        "4/C12",
+    ),
+})
+
 NOT_YET = {}
 
 props = [json.loads(l) for l in open(f"{root}/properties.jsonl")]
